@@ -371,6 +371,19 @@ class Session:
                     if float(rb.value) != float(est[rb.name]):
                         ctx.fail('I03.results', f'results [{algo}]: value stored for {rb.name} is {rb.value!r}, '
                                                 f'get_beta_values() gives {est[rb.name]!r}')
+                # the eigenvectors reported for identification diagnostics are attached to the parameters in the
+                # reported order: they must be eigenvectors of minus the reported Hessian
+                if getattr(r.data, 'H', None) is not None and getattr(r.data, 'smallestEigenVector', None) is not None:
+                    M_ = -np.nan_to_num(np.asarray(r.data.H, dtype=float))
+                    for which in ('smallest', 'largest'):
+                        v_ = np.asarray(getattr(r.data, f'{which}EigenVector'), dtype=float)
+                        lam_ = float(getattr(r.data, f'{which}EigenValue'))
+                        if v_.shape == (M_.shape[0],) and np.all(np.isfinite(M_)):
+                            resid = float(np.linalg.norm(M_ @ v_ - lam_ * v_))
+                            if resid > 1e-7 * max(1.0, float(np.linalg.norm(M_))):
+                                ctx.fail('I03.results', f'results [{algo}]: the {which} eigenvector reported for '
+                                                        f'{list(r.data.betaNames)} is not an eigenvector of minus the reported '
+                                                        f'Hessian for the eigenvalue {lam_!r} (residual {resid!r})')
                 if list(r.data.betaNames) != sorted(u.nm(n) for n in self.free_names()):
                     ctx.fail('I03.results', f'results list the parameters as {list(r.data.betaNames)}')
             for n in self.free_names():
